@@ -1,7 +1,9 @@
 package basicnode
 
 import (
+	"errors"
 	"io"
+	"sync"
 
 	"github.com/ipld/go-ipld-prime/datamodel"
 	"github.com/ipld/go-ipld-prime/node/mixins"
@@ -14,13 +16,66 @@ var (
 	_ datamodel.NodeAssembler = &plainBytes__Assembler{}
 )
 
+// NewBytesFromReader returns a bytes node whose content is whatever rs yields when read from its start.
+// The node takes over rs: the caller must not read or seek it afterwards.
 func NewBytesFromReader(rs io.ReadSeeker) datamodel.Node {
-	return streamBytes{rs}
+	return streamBytes{&streamSource{rs: rs}}
 }
 
 // streamBytes is a boxed reader that complies with datamodel.Node.
+//
+// A Node is immutable and may be read any number of times, also concurrently,
+// so the node never exposes the position of the one underlying reader:
+// every AsBytes and every AsLargeBytes works through its own cursor.
 type streamBytes struct {
-	io.ReadSeeker
+	src *streamSource
+}
+
+// streamSource is the underlying reader shared by all cursors of one node.
+type streamSource struct {
+	mu sync.Mutex
+	rs io.ReadSeeker
+}
+
+// streamCursor is an io.ReadSeeker over a streamSource with a position of its own.
+// Each operation positions the shared reader first, under the source's lock.
+type streamCursor struct {
+	src *streamSource
+	off int64
+}
+
+func (c *streamCursor) Read(p []byte) (int, error) {
+	c.src.mu.Lock()
+	defer c.src.mu.Unlock()
+	if _, err := c.src.rs.Seek(c.off, io.SeekStart); err != nil {
+		return 0, err
+	}
+	n, err := c.src.rs.Read(p)
+	c.off += int64(n)
+	return n, err
+}
+
+func (c *streamCursor) Seek(offset int64, whence int) (int64, error) {
+	c.src.mu.Lock()
+	defer c.src.mu.Unlock()
+	switch whence {
+	case io.SeekStart:
+	case io.SeekCurrent:
+		offset += c.off
+	default:
+		// only the underlying reader knows where its end is
+		abs, err := c.src.rs.Seek(offset, whence)
+		if err != nil {
+			return 0, err
+		}
+		c.off = abs
+		return abs, nil
+	}
+	if offset < 0 {
+		return 0, errors.New("basicnode: seek to a negative position")
+	}
+	c.off = offset
+	return offset, nil
 }
 
 // -- Node interface methods -->
@@ -68,7 +123,7 @@ func (streamBytes) AsString() (string, error) {
 	return mixins.Bytes{TypeName: "bytes"}.AsString()
 }
 func (n streamBytes) AsBytes() ([]byte, error) {
-	return io.ReadAll(n)
+	return io.ReadAll(&streamCursor{src: n.src})
 }
 func (streamBytes) AsLink() (datamodel.Link, error) {
 	return mixins.Bytes{TypeName: "bytes"}.AsLink()
@@ -76,6 +131,9 @@ func (streamBytes) AsLink() (datamodel.Link, error) {
 func (streamBytes) Prototype() datamodel.NodePrototype {
 	return Prototype__Bytes{}
 }
+
+// AsLargeBytes returns a separate reader, positioned at the start, on every call,
+// as datamodel.LargeBytesNode demands.
 func (n streamBytes) AsLargeBytes() (io.ReadSeeker, error) {
-	return n.ReadSeeker, nil
+	return &streamCursor{src: n.src}, nil
 }
